@@ -16,6 +16,7 @@ func VerifC24Names() {
 	name := "-" + rt.String("name", l)
 	for i := 1; i < len(name); i++ {
 		rt.Assume(rt.And(name[i] > ' ', name[i] <= '~'))
+		rt.Assume(name[i] != '=') // `-k=v` is a spelling some flag parsers give a meaning; the statement is silent
 	}
 	// not one of the names the table or the pool already uses, not `--` (the terminator) and
 	// not a negative number
